@@ -184,17 +184,24 @@ def make_c_rule(rule_id):
 
 
 def rule_reader(r):
-    k = pf.lib("kernel")
+    from ..pyroles import kernel_fq
     f = "sasmodels/kernel.py"
-    fq = k.func("Kernel.Fq")
-    t = pf.unparse(fq)
-    r.check("F1 = self.result[1:nout * self.q_input.nq:nout] / total_weight if nout == 2 else None" in t, f, "Kernel.Fq",
-            "F1 from the odd slots", fq.lineno, "reader agrees with the C writer (F in odd slots)")
-    r.check("F2 = self.result[0:nout * self.q_input.nq:nout] / total_weight" in t, f, "Kernel.Fq", "F2 from the even slots", fq.lineno)
-    iq = k.func("Kernel.Iq")
-    t = pf.unparse(iq)
-    r.check("combined_scale = values[0] / shell_volume" in t and "(_, F2, _, shell_volume, _) = self.Fq(" in t.replace("_, F2, _, shell_volume, _ = self.Fq(", "(_, F2, _, shell_volume, _) = self.Fq("),
-            f, "Kernel.Iq", "I = scale*F2/shell_volume + background with the volume Fq reports", iq.lineno)
+    k = kernel_fq()
+    ret = k["ret"]
+    s1 = {str(x) for x in ret[0].free_symbols}
+    s2 = {str(x) for x in ret[1].free_symbols}
+    r.check("RF1" in s1 and "RF2" not in s1, f, "Kernel.Fq", "<F> from the odd slots result[1:nout*nq:nout]", k["return"].lineno,
+            "reader agrees with the C writer (F in odd slots)")
+    r.check("RF2" in s2 and "RF1" not in s2, f, "Kernel.Fq", "<F^2> from the even slots result[0:nout*nq:nout]", k["return"].lineno)
+    mod = pf.lib("kernel")
+    iq = mod.func("Kernel.Iq")
+    call = [s_ for s_ in iq.body if isinstance(s_, ast.Assign) and isinstance(s_.value, ast.Call) and pf.call_name(s_.value) == "self.Fq"]
+    ok = bool(call) and isinstance(call[0].targets[0], ast.Tuple) and len(call[0].targets[0].elts) == 5
+    names = [pf.unparse(e) for e in call[0].targets[0].elts] if ok else []
+    rt = [s_ for s_ in iq.body if isinstance(s_, ast.Return)]
+    used = pf.names_in(pf.inline_locals(iq, rt[0].value)) if rt else set()
+    r.check(ok and names[1] in used and names[3] in used and names[0] not in used - {"_"} and names[4] not in used - {"_"}, f, "Kernel.Iq",
+            "I built from the 2nd (<F^2>) and 4th (V_shell) value Fq reports", iq.lineno, "formula in R-C01-norm")
     d = pf.lib("kerneldll")
     ki = d.func("DllKernel.__init__")
     t = pf.unparse(ki)
